@@ -204,9 +204,52 @@ def run_measure(case) -> None:
         )
 
 
+def expected_flip(bell: int, rot) -> int:
+    """1 if outcomes of `bell` measured in (rot, rot) are those of Phi+ with the receiver's bit flipped, else 0"""
+    P = joint_distribution(bell, rot, rot)
+    Pphi = joint_distribution(0, rot, rot)
+    if np.max(np.abs(P - Pphi)) < 1e-9:
+        return 0
+    if np.max(np.abs(P - Pphi[:, ::-1])) < 1e-9:
+        return 1
+    raise AssertionError("Bell state statistics are neither those of Phi+ nor their flip")
+
+
+def run_measure_multi(case) -> None:
+    """several pairs in one measure-directly request: pair i must be post-processed with pair i's Bell state"""
+    from netqasm.qlink_compat import EPRRole, EPRType
+    from netqasm.sdk.build_epr import EntRequestParams, EprMeasBasis, basis_to_rotation, deserialize_epr_measure_results
+    from netqasm.sdk.epr_socket import EPRSocket
+    from vlib import net, sim
+
+    rot = basis_to_rotation(EprMeasBasis[case["basis"]])
+    bells = case["bells"]
+    raws = case["raws"]
+    n = len(bells)
+    sock = EPRSocket("bob")
+    ctrl, conn = sim.fresh(sim.TraceExecutor, network_stack_cls=net.ScriptedNetworkStack, epr_sockets=[sock], max_qubits=5)
+    stack = ctrl.network_stack
+    if case["route"] == "explicit":
+        params = EntRequestParams(remote_node_id=1, epr_socket_id=0, number=n, post_routine=None, sequential=False, expect_phi_plus=True, rotations_local=rot, rotations_remote=rot)
+        arr = conn.builder._alloc_ent_results_array(number=n, tp=EPRType.M)
+        conn.builder._build_cmds_epr_recv_measure(arr, True, params)
+        results = deserialize_epr_measure_results(params, arr, EPRRole.RECV)
+    else:
+        results = sock.recv_measure(number=n)
+    stack.expect("recv", "M", n, [{"bell_state": b, "measurement_outcome": r} for b, r in zip(bells, raws)])
+    conn.flush()
+    for i in range(n):
+        got = results[i].measurement_outcome
+        want = raws[i] ^ expected_flip(bells[i], rot)
+        if got != want:
+            raise Failure(f"measure:multi-pair:{case['route']}", case, f"pair {i} of {n} (Bell state {bells[i]}, basis {case['basis']}, raw outcome {raws[i]}) is post-processed to {got}; Phi+ statistics require {want}")
+
+
 def check(case) -> None:
     if case["kind"] == "keep":
         run_keep(case)
+    elif case["kind"] == "measure_multi":
+        run_measure_multi(case)
     else:
         run_measure(case)
 
@@ -234,6 +277,10 @@ def measure_cases() -> List[Dict[str, Any]]:
             for bell in range(4):
                 for expect in (True, False):
                     out.append({"kind": "measure", "route": route, "basis": basis, "bell": bell, "expect": expect})
+            for bells in itertools.product(range(4), repeat=2):
+                out.append({"kind": "measure_multi", "route": route, "basis": basis, "bells": list(bells), "raws": [bells[0] % 2, (bells[1] // 2) % 2], "expect": True})
+            for bells in ((1, 2, 3), (3, 0, 1), (2, 2, 0, 1)):
+                out.append({"kind": "measure_multi", "route": route, "basis": basis, "bells": list(bells), "raws": [0] * len(bells), "expect": True})
     return out
 
 
@@ -243,7 +290,7 @@ KF_NV_ASSERT = "nv-keep-with-other-live-qubits-asserts"
 
 def excluded(case, open_keys) -> str:
     """input-level predicates of the open known findings (never outputs or error texts)"""
-    if case["kind"] == "measure":
+    if case["kind"] in ("measure", "measure_multi"):
         if case["route"] == "recv_measure" and case["basis"] not in ("Z", "MZ") and case["expect"] and KF_BASIS in open_keys:
             return KF_BASIS
         return ""
@@ -284,7 +331,7 @@ def shard(ctx: Ctx) -> None:
         except Failure as f:
             ctx.fail(f)
         n_enum += 1
-        nt = any(b != 0 for b in case["bells"]) if case["kind"] == "keep" else case["bell"] != 0
+        nt = any(b != 0 for b in case["bells"]) if "bells" in case else case["bell"] != 0
         labels = [case["kind"]] + ([case["variant"], case["hardware"], f"pairs:{len(case['bells'])}", f"others:{case['others']}", f"expect:{case['expect']}"] if case["kind"] == "keep" else [case["route"], case["basis"]])
         stt.case(case, nt, labels, sample=case)
     stt.exhaustive_domains[f"keep scenarios up to {max_pairs} pairs x variants x hardware x others x expectation; measure-directly 4 Bell x 6 bases x 2 routes x expectation"] = n_enum
